@@ -51,3 +51,13 @@ pub fn with_front<R>(text: &str, f: impl FnOnce(&Front<'_, '_>) -> R) -> R {
     };
     f(&fr)
 }
+
+/// Like `with_front` but a panic of the front end is caught and returned as Err(message).
+pub fn try_front<R>(text: &str, f: impl FnOnce(&Front<'_, '_>) -> R) -> Result<R, String> {
+    std::panic::catch_unwind(std::panic::AssertUnwindSafe(|| with_front(text, f))).map_err(|p| {
+        p.downcast_ref::<String>()
+            .cloned()
+            .or_else(|| p.downcast_ref::<&str>().map(|s| s.to_string()))
+            .unwrap_or_else(|| "panic".to_string())
+    })
+}
